@@ -163,7 +163,7 @@ def run_model(ops, nproc=None, timeout=3600):
 
 # ----------------------------------------------------------------------------- proof obligations
 
-FORBIDDEN = re.compile(r"sorry|admit|^\s*axiom |native_decide|bv_decide|implemented_by|unsafe |maxHeartbeats 0")
+FORBIDDEN = re.compile(r"\bsorry\b|\badmit\b|^\s*axiom |native_decide|bv_decide|implemented_by|\bunsafe |maxHeartbeats 0")
 
 
 def strip_comments(src):
